@@ -47,7 +47,9 @@ def observe(al, partial):
             wnd = "ramp"
         elif first[0] != plain:
             wnd = "other"
-    return {"size": str(kw.get("size")), "hop": "unset" if kw.get("hop") is None else str(kw.get("hop")),
+    # (an ungiven hop may reach the overlap-add as None or as its documented default, the size)
+    return {"size": str(kw.get("size")),
+            "hop": "unset" if kw.get("hop") is None else str(kw.get("hop")), "hop_is_size": kw.get("hop") == kw.get("size"),
             "wnd": wnd, "ola_normalize": "False" if kw.get("normalize") is False else
             ("unset" if "normalize" not in kw else "other")}
 
@@ -83,6 +85,9 @@ def check_partials(ctx, al):
         for i, p in enumerate(parts):
             got = observe(al, p)
             want = expected(st["store"][i])
+            hop_is_size = got.pop("hop_is_size", False) if isinstance(got, dict) else False
+            if want.get("hop") == "unset" and hop_is_size:
+                got["hop"] = "unset"              # the documented default, made explicit by the wrapper
             if got != want:
                 bad += 1
                 ctx.violation("C09:stft:partial-not-a-value",
